@@ -735,6 +735,22 @@ func c13R5(c *Ctx, r *Report) {
 	r.Floor(rule, nRes, 4, "Result literals in Compile")
 	// (c) main: os.Exit(1) iff !result.Success
 	mainFn := c.LookupFn(".", "main")
+	if jsCompile := c.LookupFn(".", "compile"); jsCompile != nil && mainFn != nil && c.LookupFn(".", "printUsage") == nil {
+		// js/wasm configuration (main_wasm.go): there is no process exit status; the embedding page gets
+		// the verdict as the "success" entry of the returned object, which must be result.Success
+		jinfo := jsCompile.Info()
+		ok := false
+		ast.Inspect(jsCompile.Decl.Body, func(n ast.Node) bool {
+			if kv, isKV := n.(*ast.KeyValueExpr); isKV {
+				if v := constOf(jinfo, kv.Key); v != nil && v.Kind() == constant.String && constant.StringVal(v) == "success" && strings.HasSuffix(exprStr(kv.Value), ".Success") {
+					ok = true
+				}
+			}
+			return true
+		})
+		r.Check(ok, rule, jsCompile.Name(), "js entry returns success: result.Success", c.pos(jsCompile.Decl.Pos()), "the browser entry point does not hand Compile's verdict to its caller")
+		return
+	}
 	if r.Anchor(rule, mainFn != nil, "main.main") {
 		minfo := mainFn.Info()
 		ok := false
